@@ -258,7 +258,7 @@ def string_classes(case):
 
 FRAGMENTS = ['\\x', '\\\\', '\\"', "\\'", '""', "''", 'a.', '(', ')', '1.', '.1', '$A', 'A$', '#', '"\\', '.5', '<>', 'A1:', ' ', '\t', '%', '^2', '_a', '.a', 'a_', '1e', '-', '{', ',', ';', '!', 'é', 'A1', 'x(', 'N/A', '#N/A', '&"']
 patho_case = st.fixed_dictionaries({'prefix': st.sampled_from(['', '"', "'", 'SUM(', 'CONCATENATE("', "LEN('", '=', '{', '1+']), 'frag': st.sampled_from(FRAGMENTS), 'frag2': st.sampled_from([''] + FRAGMENTS),
-                                    'n': st.integers(1, 25), 'suffix': st.sampled_from(['', '"', "'", ')', '")', '}', '+1'])})
+                                    'n': st.one_of(st.integers(1, 25), st.integers(1, 25), st.integers(1, 25), st.integers(1, 25), st.sampled_from([400, 1200, 2500])), 'suffix': st.sampled_from(['', '"', "'", ')', '")', '}', '+1'])})
 CPU_LIMIT_S = 2.0
 
 
@@ -272,11 +272,20 @@ def check_patho(case):
     if bigcost(text):
         raise Skip('big-integer-cost')
     P = make_parser()
+    # a long run is evaluated under the interpreter's default recursion limit (Hypothesis raises it inside test bodies): whatever in parse() nests once per
+    # repetition has to end in a record there too
+    lim = sys.getrecursionlimit()
     t0 = time.thread_time()
     try:
+        if case['n'] > 25:
+            sys.setrecursionlimit(1000)
         r = P.parse(text)
     except Exception as e:
-        raise Violation('parse(%r) raised %s: %s' % (text, type(e).__name__, _safe(e)), type(e).__name__, 'returns a record')
+        sys.setrecursionlimit(lim)
+        shown = text if len(text) < 200 else '%s... (%r repeated %d times)' % (text[:60], case['frag'] + case['frag2'], case['n'])
+        raise Violation('parse(%r) raised %s: %s' % (shown, type(e).__name__, _safe(e)), type(e).__name__, 'returns a record')
+    finally:
+        sys.setrecursionlimit(lim)
     dt = time.thread_time() - t0
     m = well_formed(r)
     if m:
@@ -369,7 +378,8 @@ def check_tamper(case):
 
 # ---------------------------------------------------------------- termination on boundary arguments
 
-TB = [-2 ** 40, -37, -2, -1, -0.5, 0, 0.5, 0.999, 1, 1.01, 1.5, 1.9, 2, 2.5, 36, 36.5, 37, 3999, 4000, 2 ** 39, 10 ** 15, float('inf'), float('-inf'), float('nan'), '', 'a', 'aaa', '12', '1.5', None, True, False, '~', 'a~a*', [], ['a', 'aaa'], '0.00E+00', '#,##0.00']
+TB = [-2 ** 40, -37, -2, -1, -0.5, 0, 0.5, 0.999, 1, 1.01, 1.5, 1.9, 2, 2.5, 36, 36.5, 37, 3999, 4000, 2 ** 39, 10 ** 15, float('inf'), float('-inf'), float('nan'), '', 'a', 'aaa', '12', '1.5', None, True, False, '~', 'a~a*', [], ['a', 'aaa'], '0.00E+00', '#,##0.00',
+      'XIV\n', '\n', '12\n']          # texts ending in a line feed: a pattern anchored with $ lets them through, the loop behind it meets a character it never expected
 TB_SMALL = [-1, 0, 0.5, 1, 1.5, 2, float('inf'), float('nan'), '', 'a', 'aaa', None, '~', 'a~a*', [], ['a', 'aaa']]       # the values that decide loop bounds: all combinations of these at arity 3 and 4
 TFUNCS = [('BASE', 2), ('BASE', 3), ('ROMAN', 1), ('ROMAN', 2), ('ARABIC', 1), ('SUBSTITUTE', 3), ('SUBSTITUTE', 4), ('TEXT', 2), ('DEC2HEX', 1), ('DEC2HEX', 2), ('HEX2DEC', 1), ('DECIMAL', 2), ('CHAR', 1),
           ('ROUND', 2), ('ROUNDUP', 2), ('ROUNDDOWN', 2), ('CEILING', 2), ('FLOOR', 2), ('MOD', 2), ('QUOTIENT', 2), ('EDATE', 2), ('DATE', 3), ('TIME', 3), ('LEFT', 2), ('MID', 3), ('INDEX', 3), ('MATCH', 3), ('LARGE', 2),
@@ -741,8 +751,8 @@ LAWS = [
              'parse returns within the step budget a record {result, error} with a canonical or empty error, an empty result when the error is set, and never an error object as result; non-trivial = at least 3 characters'),
     Law('repetitive', check_patho, strategy=patho_case, quick=3000, thorough=60000, shards=(16, 16), shrink=False,
         key=lambda c: 'cpu-time', nontrivial=lambda c: c['n'] >= 8,
-        classes=lambda c: (('unterminated-quote' if c['prefix'][-1:] in ('"', "'") and not c['suffix'][:1] in ('"', "'") else 'other'), 'n>=20' if c['n'] >= 20 else 'n<20'), required=('unterminated-quote', 'n>=20'),
-        rule='a fragment of 1-4 characters (backslash pairs, quotes, dots, brackets, markers, operators ...) repeated 1-25 times after an opening context (an open quote, SUM(, ...) and before an optional closer - the shape that makes a backtracking '
+        classes=lambda c: (('unterminated-quote' if c['prefix'][-1:] in ('"', "'") and not c['suffix'][:1] in ('"', "'") else 'other'), 'n>=20' if c['n'] >= 20 else 'n<20', 'n>=400' if c['n'] >= 400 else 'n<400'), required=('unterminated-quote', 'n>=20', 'n>=400'),
+        rule='a fragment of 1-4 characters (backslash pairs, quotes, dots, brackets, markers, operators ...) repeated 1-25 times (one case in five: 400, 1200 or 2500 times, under the default recursion limit) after an opening context (an open quote, SUM(, ...) and before an optional closer - the shape that makes a backtracking '
              'token pattern explode: the record is well-formed and the evaluation uses at most 2 s of CPU time of its thread (ordinary inputs of that length take ~1 ms; CPU time, not wall clock, so machine load does not enter)'),
     Law('own_record', check_tamper, strategy=st.fixed_dictionaries({'f': st.lists(st.sampled_from(TAMPER_FORMULAS), min_size=1, max_size=5)}), quick=300, thorough=5000, shards=(4, 8),
         key=lambda c: 'shared-record', nontrivial=lambda c: len(c['f']) >= 2,
